@@ -35,6 +35,17 @@ type svc struct {
 	single                             []string          // request fields appended as one element
 	dup                                []string          // acquirer fields appended more than once
 	unknown                            int
+	loops                              []loop // every range over a request field whose body appends to a column
+	guarded                            int    // appends under an if / switch / for / range over something else, exits between the first and the last append
+}
+
+// a range loop of the closure that appends: the request field it ranges over, the columns its body appends to, and how many
+// statements of the body can make an iteration append to fewer columns than another one (continue / break / goto / return / if /
+// switch / nested loop / panic): with ctl = 0 every iteration appends once to every column of the loop
+type loop struct {
+	field string
+	cols  []string
+	ctl   int
 }
 
 // x.<sel>...: the selector directly applied to identifier `v`
@@ -176,6 +187,23 @@ func main() {
 			sep = ""
 		}
 		fmt.Fprintf(&b, "  (%s, %s, [%s], %s, [%s], %d%%Z)%s\n", q(s.stype), q(s.reqType), strings.Join(ss, "; "), q(s.keyCol), strings.Join(ds, "; "), s.unknown, sep)
+	}
+	b.WriteString("].\n(* (ServiceType, [(request field a range loop of the closure runs over, columns its body appends to, statements of the body that can\n   make one iteration append to fewer columns than another: continue / break / return / if / switch / nested loop / panic)],\n   appends guarded by an if / switch / loop that is no range over a request field + exits between the first and the last append) *)\n")
+	b.WriteString("Definition gen_c02_loops : list (string * list (string * list string * Z) * Z) := [\n")
+	for i, s := range svcs {
+		var ls []string
+		for _, l := range s.loops {
+			var cs []string
+			for _, c := range l.cols {
+				cs = append(cs, q(c))
+			}
+			ls = append(ls, fmt.Sprintf("(%s, [%s], %d%%Z)", q(l.field), strings.Join(cs, "; "), l.ctl))
+		}
+		sep := ";"
+		if i == len(svcs)-1 {
+			sep = ""
+		}
+		fmt.Fprintf(&b, "  (%s, [%s], %d%%Z)%s\n", q(s.stype), strings.Join(ls, "; "), s.guarded, sep)
 	}
 	b.WriteString("].\n")
 	// every place under writer/ that assigns to a trace-id / span-id slice of a request struct: (file, function, field)
@@ -353,8 +381,110 @@ func processRequest(s *svc, fl *ast.FuncLit) {
 		}
 		return true
 	})
-	if strings.HasPrefix(s.keyCol, "#") {
-		// res[0].Size(): the first column of serialize order; resolved by the reader of the output
-	}
 	sort.Strings(s.single)
+	loopShapes(s, fl, reqVar, acqVar)
+}
+
+// isAppend: acq.<col>....Append / AppendArr / AppendBytes (one argument); returns the column
+func isAppend(n ast.Node, acqVar string) string {
+	ce, ok := n.(*ast.CallExpr)
+	if !ok {
+		return ""
+	}
+	se, ok := ce.Fun.(*ast.SelectorExpr)
+	if !ok || (se.Sel.Name != "Append" && se.Sel.Name != "AppendArr" && se.Sel.Name != "AppendBytes") {
+		return ""
+	}
+	return selOn(se.X, acqVar)
+}
+
+func isExit(n ast.Node) bool {
+	switch x := n.(type) {
+	case *ast.BranchStmt, *ast.ReturnStmt:
+		return true
+	case *ast.CallExpr:
+		if id, ok := x.Fun.(*ast.Ident); ok && id.Name == "panic" {
+			return true
+		}
+	}
+	return false
+}
+
+// loopShapes: the control structure around the appends of a ProcessRequest closure.  The model (Ingest.v eff / zip_app) appends to
+// every column one value per element of the field the column's loop ranges over; that is only what the code does when each loop body is
+// straight-line (no continue / break / return / if inside: every iteration appends to every column of the loop) and no append is
+// guarded by anything but such a loop, and nothing leaves the closure between its first and its last append.
+func loopShapes(s *svc, fl *ast.FuncLit, reqVar, acqVar string) {
+	var stack []ast.Node
+	first, last := token.NoPos, token.NoPos
+	ast.Inspect(fl.Body, func(n ast.Node) bool {
+		if n != nil && isAppend(n, acqVar) != "" {
+			if first == token.NoPos {
+				first = n.Pos()
+			}
+			last = n.End()
+		}
+		return true
+	})
+	ast.Inspect(fl.Body, func(n ast.Node) bool {
+		if n == nil {
+			stack = stack[:len(stack)-1]
+			return true
+		}
+		stack = append(stack, n)
+		if isAppend(n, acqVar) != "" {
+			nloops := 0
+			for _, a := range stack[:len(stack)-1] {
+				switch x := a.(type) {
+				case *ast.RangeStmt:
+					nloops++
+					if reqVar == "" || selOn(x.X, reqVar) == "" || nloops > 1 {
+						s.guarded++
+					}
+				case *ast.IfStmt, *ast.SwitchStmt, *ast.TypeSwitchStmt, *ast.ForStmt, *ast.SelectStmt, *ast.FuncLit, *ast.GoStmt, *ast.DeferStmt, *ast.CaseClause:
+					s.guarded++
+				}
+			}
+		}
+		if first != token.NoPos && isExit(n) && n.Pos() > first && n.End() < last {
+			// inside a loop it is counted by the loop's ctl as well; at the top level it cuts the closure short between two columns
+			inLoop := false
+			for _, a := range stack {
+				if _, ok := a.(*ast.RangeStmt); ok {
+					inLoop = true
+				}
+			}
+			if !inLoop {
+				s.guarded++
+			}
+		}
+		if rs, ok := n.(*ast.RangeStmt); ok {
+			var cols []string
+			ctl := 0
+			ast.Inspect(rs.Body, func(m ast.Node) bool {
+				if m == nil {
+					return true
+				}
+				if c := isAppend(m, acqVar); c != "" {
+					cols = append(cols, c)
+				}
+				switch m.(type) {
+				case *ast.IfStmt, *ast.SwitchStmt, *ast.TypeSwitchStmt, *ast.ForStmt, *ast.RangeStmt, *ast.SelectStmt, *ast.GoStmt, *ast.DeferStmt, *ast.LabeledStmt:
+					ctl++
+				}
+				if isExit(m) {
+					ctl++
+				}
+				return true
+			})
+			if len(cols) > 0 {
+				f := "?" + text(rs.X)
+				if reqVar != "" && selOn(rs.X, reqVar) != "" {
+					f = selOn(rs.X, reqVar)
+				}
+				s.loops = append(s.loops, loop{f, cols, ctl})
+			}
+		}
+		return true
+	})
 }
